@@ -599,7 +599,7 @@ def _is_plain_expr_slot(path, a, parent):
                  'subject', 'slice', 'bases', 'decorator_list', 'ifs', 'defaults', 'kw_defaults', 'keys')
 
 
-def gen_op(rng, root, src_gaps=None):
+def gen_op(rng, root, src_gaps=None, kept=None):
     """One random structured edit as a JSON-able dict, or None."""
     nodes = enum_nodes(root.a)
     parents = {}
@@ -609,7 +609,47 @@ def gen_op(rng, root, src_gaps=None):
     kind = rng.choice(['replace_expr', 'replace_expr', 'replace_stmt', 'remove', 'remove', 'insert', 'insert',
                        'append', 'put_slice', 'put_src', 'put_src', 'view', 'view', 'prepend', 'del_slice',
                        'put_src_none', 'put_src_none', 'line_comment', 'line_comment', 'line_comment', 'docstr',
-                       'par', 'unpar', 'unpar', 'virt', 'virt'])
+                       'par', 'unpar', 'unpar', 'virt', 'virt', 'kview_make', 'kview_act', 'kview_act'])
+    if kind in ('kview_make', 'kview_act'):
+        if kept is None:
+            return None
+        alive = [n for n, r in kept.items() if not r.get('dead')]
+        if kind == 'kview_act' and alive:
+            name = rng.choice(alive)
+            rec = kept[name]
+            act = rng.choice(['cut', 'remove', 'delall', 'append', 'prepend', 'insert1', 'extend', 'del0'])
+            base_a = rec['view'].base.a
+            what = 'stmt' if rec['field'] in _BODY_FIELDS else 'expr'
+            if rec['field'] == 'keywords':
+                code = 'k1=1, k2=2' if act == 'extend' else 'kk=1'
+            elif what == 'stmt':
+                code = 'p\nq' if act == 'extend' else 'pass'
+            else:
+                code = 'p, q' if act == 'extend' else 'zz'
+            return {'op': 'kview', 'act': act, 'name': name, 'code': code}
+        if len(alive) >= 3:
+            return None
+        c = []
+        for p, a in nodes:
+            for fld in ('elts', 'body', 'orelse', 'args', 'keywords', 'targets', 'names', 'bases', 'items', 'patterns'):
+                v = getattr(a, fld, None)
+                if isinstance(v, list) and not isinstance(a, (ast.IfExp, ast.Lambda)) and not (
+                        isinstance(a, ast.arguments)) and not isinstance(getattr(a, 'ctx', None), (ast.Store, ast.Del)) \
+                        and (v or fld in ('elts', 'args', 'keywords')):      # an empty orelse / bases / ... cannot always be grown (try/else needs except: C01/C03)
+                    c.append((p, a, fld, len(v)))
+        if not c:
+            return None
+        p, a, fld, n = rng.choice(c)
+        name = f'v{len(kept)}'
+        shape = rng.choice(['whole', 'whole', 'tail', 'bounded', 'bounded'])
+        if shape == 'whole':
+            st, sp = None, None
+        elif shape == 'tail':
+            st, sp = rng.randint(0, n), None
+        else:
+            st = rng.randint(0, n)
+            sp = rng.randint(st, n)
+        return {'op': 'kview', 'act': 'make', 'name': name, 'path': list(map(list, p)), 'field': fld, 'start': st, 'stop': sp}
     if kind == 'virt':
         c = []
         for p, a in nodes:
@@ -807,6 +847,10 @@ def gen_op(rng, root, src_gaps=None):
 
 
 def op_kind(op):
+    if op['op'] == 'ext':
+        return f"ext-{op['how']}"
+    if op['op'] == 'kview':
+        return f"kview-{op['act']}"
     if op['op'] == 'virt':
         return f"virt-{op['how']}"
     return op['op'] + ('-' + op['vop'] if op['op'] == 'view' else '')
@@ -835,11 +879,13 @@ class ViewExpect:
         self.start, self.stop, self.n_before = start, stop, n_before
 
 
-def apply_op(root, op):
+def apply_op(root, op, kept=None):
     """Execute one op with the public API. Returns extra expectations: {'view': (view, exp_start, exp_stop_fn)} or {}.
     Raises whatever pfst raises."""
     opts = {'norm': True}
     k = op['op']
+    if k == 'kview':
+        return apply_kview(root, op, kept if kept is not None else {})
     if k == 'put_src_none':
         # action=None: "best to call on the node that owns the source": the statement a trailing comment / whitespace
         # is on, the innermost block (or the module) for a comment on its own line
@@ -864,6 +910,24 @@ def apply_op(root, op):
     path = tuple((n, i) for n, i in op['path'])
     a = at_path(root.a, path)
     f = a.f
+    if k == 'ext':
+        from fst import FST
+        fld, how, code = op['field'], op['how'], op.get('code')
+        with FST.options(**opts):
+            n = len(getattr(f, fld))
+            if how == 'append':
+                f.put_slice(code, n, n, fld, one=True)
+            elif how == 'prepend':
+                f.put_slice(code, 0, 0, fld, one=True)
+            elif how == 'del0':
+                f.put_slice(None, 0, 1, fld)
+            elif how == 'newview_append':
+                getattr(f, fld).append(code)
+            elif how == 'extend':
+                f.put_slice(code, n, n, fld)
+            else:
+                raise ValueError(how)
+        return {}
     if k == 'virt':
         # get / cut / delete a span of a virtual field (arguments._all, Call._args, ClassDef._bases, Dict._all,
         # MatchMapping._all, MatchClass._attrs, Compare._all) or of a plain list field
@@ -982,6 +1046,184 @@ def check_view_after(root, info, env):
     if got_len != e - s or got != want or bi != [s, e, n1]:
         return f'window after edit: len {got_len} items {got} indices {bi}; list-window semantics give len {e - s} items {want} indices {[s, e, n1]}'
     return None
+
+
+# ---------------------------------------------------------------------------------------------------------------------
+# views kept alive across the history ("queries" that outlive edits)
+
+def _vlen(f, fld):
+    return len(getattr(f, fld))
+
+
+def apply_kview(root, op, kept):
+    """'make': create a view (whole field: start = stop = None; `[k:]`: stop None; bounded) and keep it under `name`;
+    other acts: edit THROUGH the kept view object. Maintains the expected window (plain list-window semantics)."""
+    from fst import FST
+    act, name = op['act'], op['name']
+    if act == 'make':
+        a = at_path(root.a, tuple((n, i) for n, i in op['path']))
+        fld = op['field']
+        whole = getattr(a.f, fld)
+        n = len(whole)
+        st, sp = op['start'], op['stop']
+        if st is None and sp is None:
+            kept[name] = {'view': whole, 'field': fld, 'whole': True, 's': 0, 'e': n}
+        else:
+            s0 = min(st or 0, n)
+            e0 = n if sp is None else min(sp, n)
+            e0 = max(e0, s0)
+            v = whole[s0:] if sp is None else whole[s0:e0]
+            kept[name] = {'view': v, 'field': fld, 'whole': False, 's': s0, 'e': e0}
+        return {}
+    rec = kept.get(name)
+    if rec is None or rec.get('dead'):
+        raise ValueError('no such kept view')
+    v = rec['view']
+    fld = rec['field']
+    n0 = _vlen(v.base, fld)
+    s0, e0 = rec['s'], min(rec['e'], n0)
+    s0 = min(s0, e0)
+    code = op.get('code')
+    with FST.options(norm=True):
+        if act == 'cut':
+            v.cut()
+        elif act == 'remove':
+            v.remove()
+        elif act == 'delall':
+            del v[:]
+        elif act == 'append':
+            v.append(code)
+        elif act == 'prepend':
+            v.prepend(code)
+        elif act == 'insert1':
+            v.insert(code, 1)
+        elif act == 'extend':
+            v.extend(code)
+        elif act == 'del0':
+            del v[0]
+        else:
+            raise ValueError(act)
+    n1 = _vlen(v.base, fld)
+    d = n1 - n0
+    if not rec['whole']:
+        w = e0 - s0
+        if act in ('cut', 'remove', 'delall'):
+            ok, e1 = d == -w, s0
+        elif act in ('append', 'prepend', 'insert1'):
+            ok, e1 = d == 1, e0 + 1
+        elif act == 'extend':
+            ok, e1 = d >= 0, e0 + d
+        else:
+            ok, e1 = d == -1 and w > 0, e0 - 1
+        if not ok:
+            rec['dead'] = 'length change not that of the method (norm placeholder): window not defined by the property'
+        rec['s'], rec['e'] = s0, e1
+    rec['acted'] = True
+    return {}
+
+
+def check_kept(root, kept, okind):
+    """Every kept view vs a fresh view on a fresh parse of the current source: a whole-field view is always the whole
+    field; a bounded view is the window [s:e) that plain list-window semantics give (edits through the view move the
+    end by the length change, edits elsewhere only clip it)."""
+    fails = []
+    live = [(n, r) for n, r in kept.items() if not r.get('dead')]
+    if not live:
+        return fails
+    try:
+        fresh = fresh_tree(root.src)
+    except Exception:
+        return fails
+    env = Env(root)
+    fenv = Env(fresh)
+
+    def items(view, e):
+        out = []
+        for x in view:
+            out.append(e.p(x) if getattr(x, 'is_FST', False) else (x if isinstance(x, (str, type(None))) else
+                                                                    (e.p(getattr(x, 'base', None)), 'subview')))
+        return out
+
+    for name, rec in live:
+        v = rec['view']
+        base = v.base
+        ba = getattr(base, 'a', None)
+        if ba is None or id(ba) not in env.by_id or getattr(ba, 'f', None) is not base:
+            rec['dead'] = 'base node left the tree'
+            continue
+        path = env.by_id[id(ba)]
+        fld = rec['field']
+        try:
+            fa = at_path(fresh.a, path)
+            wv = getattr(fa.f, fld)
+            n = len(wv)
+        except Exception:
+            rec['dead'] = 'field gone'
+            continue
+        if rec['whole']:
+            s, e = 0, n
+        else:
+            e = min(rec['e'], n)
+            s = min(rec['s'], e)
+            rec['s'], rec['e'] = s, e
+        acted = rec.pop('acted', False)
+        try:
+            want = [e - s, items(wv[s:e] if (s, e) != (0, n) or not rec['whole'] else wv, fenv), [s, e]]
+            got = [len(v), items(v, env), list(v.start_and_stop)]
+        except RecursionError:
+            raise
+        except Exception as ex:
+            fails.append((('kept-view', okind, fld, 'query-raised'),
+                          f'kept view {name} of .{fld}: query raised {type(ex).__name__}: {ex}', None))
+            continue
+        if got != want:
+            fails.append((('kept-view', okind, fld, 'whole-window' if rec['whole'] else 'bounded-window'),
+                          f'kept {"whole-field" if rec["whole"] else "bounded"} view {name} of {pstr(path)}.{fld} '
+                          f'(edited through itself: {acted}): len/items/start_and_stop {str(got)[:300]}; a fresh view on a '
+                          f'fresh parse of the current source gives {str(want)[:300]}', None))
+    return fails
+
+
+KVIEW_FIELDS = [
+    ('x = [a, b, c, d]', [['body', 0], ['value', None]], 'elts', 'zz', 'p, q'),
+    ('x = (a, b, c, d)', [['body', 0], ['value', None]], 'elts', 'zz', 'p, q'),
+    ('x = {a, b, c, d}', [['body', 0], ['value', None]], 'elts', 'zz', 'p, q'),
+    ('f(a, b, c, d)', [['body', 0], ['value', None]], 'args', 'zz', 'p, q'),
+    ('f(a=1, b=2, c=3)', [['body', 0], ['value', None]], 'keywords', 'kk=1', 'k1=1, k2=2'),
+    ('if t:\n    a\n    b\n    c\n    d\n', [['body', 0]], 'body', 'pass', 'p\nq'),
+    ('def f():\n    """d"""\n    a\n    b\n    c\n', [['body', 0]], 'body', 'pass', 'p\nq'),
+    ('a\nb\nc\n', [], 'body', 'pass', 'p\nq'),
+    ('del a, b, c, d', [['body', 0]], 'targets', 'zz', 'p, q'),
+    ('global a, b, c, d', [['body', 0]], 'names', 'zz', 'p, q'),
+    ('import a, b, c, d', [['body', 0]], 'names', 'zz', 'p, q'),
+    ('class C(A, B, D): pass', [['body', 0]], 'bases', 'zz', 'p, q'),
+    ('with a, b, c: pass', [['body', 0]], 'items', 'zz', 'p, q'),
+    ('def f(a, b, c, d): pass', [['body', 0], ['args', None]], '_all', 'zz', 'p, q'),
+    ('x = {a: 1, b: 2, c: 3}', [['body', 0], ['value', None]], '_all', 'zz: 1', 'p: 1, q: 2'),
+    ('match x:\n case [a, b, c]: pass', [['body', 0], ['cases', 0], ['pattern', None]], 'patterns', 'zz', 'p, q'),
+]
+KVIEW_KINDS = [(None, None), (0, 2), (1, None), (1, 3), (1, 1)]
+KVIEW_ACTS = ['cut', 'remove', 'delall', 'append', 'prepend', 'insert1', 'extend', 'del0', None]
+KVIEW_EXT = ['append', 'prepend', 'del0', 'newview_append', 'extend']
+
+
+def kview_product():
+    """[(src, steps)]: field kinds x view kinds x edit through the kept view x growth / shrink through another handle"""
+    out = []
+    for src, path, fld, one, many in KVIEW_FIELDS:
+        for st, sp in KVIEW_KINDS:
+            for act in KVIEW_ACTS:
+                for ext in KVIEW_EXT:
+                    steps = [{'pre': [], 'op': {'op': 'kview', 'act': 'make', 'name': 'v', 'path': path, 'field': fld,
+                                                'start': st, 'stop': sp}}]
+                    if act:
+                        steps.append({'pre': [], 'op': {'op': 'kview', 'act': act, 'name': 'v',
+                                                        'code': many if act == 'extend' else one}})
+                    steps.append({'pre': [], 'op': {'op': 'ext', 'how': ext, 'path': path, 'field': fld,
+                                                    'code': many if ext == 'extend' else one}})
+                    steps.append({'pre': [], 'op': {'op': 'ext', 'how': 'append', 'path': path, 'field': fld, 'code': one}})
+                    out.append((src, steps))
+    return out
 
 
 # ---------------------------------------------------------------------------------------------------------------------
@@ -1286,7 +1528,7 @@ def check_state(root, root_id, op, view_info=None, graphs=None, target_kind='-',
     return fails, stop
 
 
-def run_history(src, steps=None, seed=None, nsteps=6, with_graphs=False, stop_on_fail=True):
+def run_history(src, steps=None, seed=None, nsteps=6, with_graphs=False, stop_on_fail=True, light=False):
     """Run an explicit history (`steps`) or generate one (`seed`). Returns dict with 'fails', 'steps' (as executed),
     'graphs', counters."""
     rng = random.Random(seed)
@@ -1299,6 +1541,7 @@ def run_history(src, steps=None, seed=None, nsteps=6, with_graphs=False, stop_on
     root_id = id(root)
     graphs = res['graphs'] if with_graphs else None
     explicit = steps is not None
+    kept = {}
     n = len(steps) if explicit else nsteps
     for si in range(n):
         if explicit:
@@ -1306,7 +1549,7 @@ def run_history(src, steps=None, seed=None, nsteps=6, with_graphs=False, stop_on
         else:
             op = None
             for _ in range(6):
-                op = gen_op(rng, root, gaps)
+                op = gen_op(rng, root, gaps, kept)
                 if op is not None and (op['op'] != 'put_src' or put_src_keeps_ast(root.src, op)):
                     break
                 op = None
@@ -1326,7 +1569,7 @@ def run_history(src, steps=None, seed=None, nsteps=6, with_graphs=False, stop_on
         if c01_family is None and _re_dangling_cont.search(before_src):
             c01_family = 'edit-after-dangling-line-continuation'     # state left by known finding C01-K8
         try:
-            info = apply_op(root, op)
+            info = apply_op(root, op, kept)
         except RecursionError:
             raise
         except Exception as e:
@@ -1351,8 +1594,23 @@ def run_history(src, steps=None, seed=None, nsteps=6, with_graphs=False, stop_on
         stale_family = None
         if op['op'] == 'unpar' and len(root.src) == len(before_src) and root.src != before_src:
             stale_family = ('unpar-pars-to-spaces', pstr(tuple((n, i) for n, i in op['path'])))
-        fails, stop = check_state(root, root_id, op, info if info else None, graphs, target_kind,
-                                  c01_family or (stale_family and stale_family[0]), stale_family)
+        if light:
+            # deterministic products about one mechanism: root identity, C01 oracle (ends the history), link invariant
+            fails, stop = [], False
+            if id(root) != root_id or root.a is None:
+                fails.append((('root-identity', op_kind(op), '-', 'root-changed'), 'root object changed or died', None))
+                stop = True
+            elif util.tree_equals_parse(root):
+                break
+            else:
+                bad = link_invariant_py(dump_state(Ids(), root))
+                if bad:
+                    fails.append((('links', op_kind(op), bad[0][0], 'link-invariant'), f'link invariant broken: {bad[:3]}', None))
+        else:
+            fails, stop = check_state(root, root_id, op, info if info else None, graphs, target_kind,
+                                      c01_family or (stale_family and stale_family[0]), stale_family)
+        if kept and not stop:
+            fails.extend(check_kept(root, kept, op_kind(op)))
         z = zombies(root, held)
         if z:
             fails.append((('is_alive', op_kind(op), z[0], 'zombie-node'),
